@@ -8,8 +8,8 @@ function that is injective (assumption "digest injectivity"); `pub` is one atomi
 (assumption "POSIX rename atomicity"); tools turn complete inputs into complete outputs
 (toolchain contract); `mkdtemp` returns a name never used before.
 
-* current protocol (`/repo/pyiga/compile.py` as pinned): `¬ Safe .current`, by concrete traces;
-* repaired protocol (fixes/C20-atomic-publish.patch): `Safe .repaired`, proved through an
+* current protocol (`pyiga/compile.py` before fix bd865f5): `¬ Safe .current`, by concrete traces;
+* repaired protocol (/repo since bd865f5 = fixes/C20-atomic-publish.patch): `Safe .repaired`, through an
   inductive invariant, plus stability of published entries, liveness and recovery.
 -/
 import Pyiga.Proofs.CompileCache
@@ -239,6 +239,13 @@ theorem sharedTmp_unsafe : ¬ Safe .sharedTmp := by
   intro h
   have := (h id (fun _ _ h => h) witnessRaceBuild (by decide)).2 0
   exact this.2.1 (by decide)
+
+/-- Rename atomicity is needed: if the finished `.so` is *copied* onto the final path, a request
+arriving between the two halves of the copy imports a partial file (nobody is killed). -/
+theorem rename_atomicity_needed : ¬ Safe .copyPublish := by
+  intro h
+  have := (h id (fun _ _ h => h) ([.spawn 0 7] ++ runs 0 false 11 ++ [.spawn 1 7, .run 1 true]) (by decide)).2 1
+  exact this.1 (by decide)
 
 /-! ## non-vacuity: the hypotheses are satisfiable and the repaired protocol does something -/
 
